@@ -16,11 +16,6 @@ variable {ν : Type} {N : Num ν}
 def pdfOps (N : Num ν) (ds : List (Draw ν)) (w : PW ν) : List (POp ν) := (pdfProg N ds w).2.flatten
 def pdfFinal (N : Num ν) (ds : List (Draw ν)) (w : PW ν) : PW ν := (pdfProg N ds w).1
 
-/-- Full statement (not provable for the current code, see `pdf_stale_alpha_witness`): interpreting the
-content stream of ANY program paints exactly the reference items. -/
-def pdf_refines_statement (N : Num ν) : Prop :=
-  ∀ ds : List (Draw ν), (pdfRun (pg0 N) (pdfOps N ds (pw0 N))).2 = ds.flatMap (pdfRef N)
-
 /-- `Inv` for one call, unconditionally (any scalars, any paints, any cache): after interpreting what
 `PDF.RenderPath` emitted from the state the cache claims, the graphics state is the one the new cache
 claims. "Only emit what changed" never desynchronises cache and graphics state. -/
@@ -48,37 +43,37 @@ theorem pdf_inv_from_new_page (ds : List (Draw ν)) :
   rw [this]
   exact pdf_inv_program ds _
 
-/-- One call refines the reference (fill, then native stroke or explicit outline; colours, alpha,
-width·s, cap, join, limit, dashes·width·s, closing operator), when `==` is lawful and the paints' alpha
-is the cache's alpha `a`; alpha and cache well-formedness are maintained. -/
-theorem pdf_step_refines_partial (L : Lawful N) (d : Draw ν) (w : PW ν) (a : Nat) (hw : w.c.alpha = a)
-    (hu : d.UniformAlpha a) (hi : PInv N w.c) :
-    pdfRun (gOf w.c) (pdfDraw N d w).2 = (gOf (pdfDraw N d w).1.c, pdfRef N d) ∧
-    (pdfDraw N d w).1.c.alpha = a ∧ PInv N (pdfDraw N d w).1.c :=
-  pdfDraw_refines L d w a hw hu hi
+/-- One call refines the reference from ANY cache (fill, then native stroke or explicit outline; colours,
+alpha, width·s, cap, join, limit, dashes·width·s, closing operator), when `==` is lawful; cache
+well-formedness (empty dash array cached with phase 0) is maintained. -/
+theorem pdf_step_refines (L : Lawful N) (d : Draw ν) (w : PW ν) (hi : PInv N w.c) :
+    pdfRun (gOf w.c) (pdfDraw N d w).2 = (gOf (pdfDraw N d w).1.c, pdfRef N d) ∧ PInv N (pdfDraw N d w).1.c :=
+  pdfDraw_refines L d w hi
 
-/-- `pdf_refines` for every program whose paints all have the alpha the page is in (excluded class:
-programs mixing alpha values, the recorded defect `pdf:alpha:stale-on-cached-paint`, and gradients
-under a non-opaque alpha). -/
-theorem pdf_refines_partial (L : Lawful N) (a : Nat) (ds : List (Draw ν)) (w : PW ν) (hw : w.c.alpha = a)
-    (hu : ∀ d ∈ ds, d.UniformAlpha a) (hi : PInv N w.c) :
+/-- `pdf_refines` for every program from every well-formed cache: the interpreter paints exactly the
+reference items of all calls, in order, and ends in the state the final cache claims. -/
+theorem pdf_refines_from (L : Lawful N) (ds : List (Draw ν)) (w : PW ν) (hi : PInv N w.c) :
     pdfRun (gOf w.c) (pdfOps N ds w) = (gOf (pdfFinal N ds w).c, ds.flatMap (pdfRef N)) := by
   induction ds generalizing w with
   | nil => simp [pdfOps, pdfFinal, pdfProg, pdfRun]
   | cons d ds ih =>
-    have h := pdfDraw_refines L d w a hw (hu d (by simp)) hi
-    have h' := ih (pdfDraw N d w).1 h.2.1 (fun d' hd' => hu d' (by simp [hd'])) h.2.2
+    have h := pdfDraw_refines L d w hi
+    have h' := ih (pdfDraw N d w).1 h.2
     unfold PSim at h
     simp only [pdfOps, pdfFinal, pdfProg, List.flatten_cons, pdfRun_append, List.flatMap_cons] at *
     rw [h.1, h']
 
-/-- every opaque program on a new page paints exactly the reference items -/
-theorem pdf_refines_opaque (L : Lawful N) (ds : List (Draw ν)) (hu : ∀ d ∈ ds, d.UniformAlpha 255) :
-    (pdfRun (pg0 N) (pdfOps N ds (pw0 N))).2 = ds.flatMap (pdfRef N) := by
-  have e : pg0 N = gOf (pw0 N).c := by simp [pg0, gOf, pw0, shadeOf, black]
-  rw [e, pdf_refines_partial L 255 ds (pw0 N) rfl hu (by intro _; rfl)]
+/-- Full statement: interpreting the content stream of ANY program on a new page paints exactly the
+reference items (full strength since the repairs 4ddfe43 and 4ddd6d5). -/
+def pdf_refines_statement (N : Num ν) : Prop :=
+  ∀ ds : List (Draw ν), (pdfRun (pg0 N) (pdfOps N ds (pw0 N))).2 = ds.flatMap (pdfRef N)
 
-/-! ### witnesses over ν := Nat -/
+theorem pdf_refines (L : Lawful N) : pdf_refines_statement N := by
+  intro ds
+  have e : pg0 N = gOf (pw0 N).c := by simp [pg0, gOf, pw0, shadeOf, black]
+  rw [e, pdf_refines_from L ds (pw0 N) (by intro _; rfl)]
+
+/-! ### instances over ν := Nat (non-vacuity of `Lawful`, regression instances of the repaired defects) -/
 
 def natNum : Num Nat :=
   { zero := 0, one := 1, ten := 10, mul := (· * ·), add := (· + ·), beq := fun a b => decide (a = b),
@@ -88,6 +83,7 @@ theorem natNum_lawful : Lawful natNum :=
   ⟨by intro x y; simp [natNum], by intro x h; simp [natNum] at *; omega⟩
 
 def halfRed : Col := ⟨128, 0, 0, 128⟩
+def blue : Col := ⟨0, 0, 255, 255⟩
 def fillOnly (c : Col) (pid : Nat) : Draw Nat :=
   { fill := .col c, stroke := .none, width := 1, cap := 0, join := .bevel, dashOff := 0, dashes := [], evenOdd := false,
     sim := true, scale := 1, closed := true, pid := pid }
@@ -99,151 +95,80 @@ def alphaOf : Painted Nat → Option Nat
   | .stroke _ _ _ a _ _ _ _ _ _ => some a
   | .invalid _ => none
 
-/-- DESIGN §6 suspect, as a three-call program: fill(alpha .5), stroke(alpha 1), the same fill again.
-`SetFill` returns early on the third call (the cached fill is equal) although `SetStroke` has moved
-the page to alpha 1: the third fill is painted opaque, the reference says alpha 128/255. -/
-def blue : Col := ⟨0, 0, 255, 255⟩
-def staleProg : List (Draw Nat) := [fillOnly halfRed 0, strokeOnly blue 1, fillOnly halfRed 2]
-
-theorem pdf_stale_alpha_witness :
-    ((pdfRun (pg0 natNum) (pdfOps natNum staleProg (pw0 natNum))).2.map alphaOf = [some 128, some 255, some 255]) ∧
-    ((staleProg.flatMap (pdfRef natNum)).map alphaOf = [some 128, some 255, some 128]) := by
-  constructor <;> decide
-
-theorem pdf_refines_statement_false : ¬ pdf_refines_statement natNum := by
-  intro h
-  have := congrArg (List.map alphaOf) (h staleProg)
-  rw [pdf_stale_alpha_witness.1, pdf_stale_alpha_witness.2] at this
-  exact absurd this (by decide)
-
-/-- non-vacuity of the partial theorem's hypotheses: an opaque three-call program -/
-example : ∀ d ∈ [fillOnly black 0, strokeOnly black 1, fillOnly ⟨255, 0, 0, 255⟩ 2], d.UniformAlpha 255 := by
-  intro d hd
-  simp at hd
-  rcases hd with rfl | rfl | rfl <;> exact ⟨by simp [fillOnly, strokeOnly, Paint.alphaIs, black], by simp [fillOnly, strokeOnly, Paint.alphaIs, black]⟩
+/-- the former stale-alpha program (fill alpha .5, stroke alpha 1, the same fill again): the third fill
+is painted with its own alpha again (instance of `pdf_refines`, kept as a regression example) -/
+example :
+    (pdfRun (pg0 natNum) (pdfOps natNum [fillOnly halfRed 0, strokeOnly blue 1, fillOnly halfRed 2] (pw0 natNum))).2.map alphaOf
+      = [some 128, some 255, some 128] := by decide
 
 /-! ## PostScript -/
 
 def psOps (N : Num ν) (ds : List (Draw ν)) (w : SW ν) : List (SOp ν) := (psProg N ds w).2.flatten
 def psFinal (N : Num ν) (ds : List (Draw ν)) (w : SW ν) : SW ν := (psProg N ds w).1
 
-/-- Full statement of `Inv` for PostScript (false for the current code: `ps_colour_cache_witness`). -/
-def ps_inv_statement (N : Num ν) : Prop :=
-  ∀ ds : List (Draw ν), (psRun (sg0 N) (psOps N ds (sw0 N))).1 = sgOf N (psFinal N ds (sw0 N))
+/-- `Inv` for one `PS.RenderPath` call from ANY cache: cache = interpreter state afterwards (including
+across `gsave fill grestore`); full strength since the repair 45be182. -/
+theorem ps_inv_step (L : Lawful N) (d : Draw ν) (w : SW ν) :
+    (psRun (sgOf N w) (psDraw N d w).2).1 = sgOf N (psDraw N d w).1 :=
+  psDraw_inv L d w
 
-/-- an opaque colour with byte components (its un-premultiplied bytes are its premultiplied bytes), or no paint -/
-def opaquePaint : Paint → Prop
-  | .col c => c.a = 255 ∧ c.r ≤ 255 ∧ c.g ≤ 255 ∧ c.b ≤ 255
-  | .none => True
-  | .grad _ => False
-
-theorem opaque_nrgb {p : Paint} (h : opaquePaint p) : p.nrgb = p.premul := by
-  cases p with
-  | none => rfl
-  | grad i => exact absurd h id
-  | col c =>
-    obtain ⟨ha, hr, hg, hb⟩ := h
-    simp only [Paint.nrgb, Paint.premul, unpremul, ha]
-    simp
-    omega
-
-theorem PaintOK_opaque (w : SW ν) (p : Paint) (hw : opaquePaint w.paint) : PaintOK w p := by
-  by_cases h : p.nrgb = w.paint.premul
-  · exact Or.inr (Or.inr (by rw [h, opaque_nrgb hw]))
-  · exact Or.inr (Or.inl h)
-
-/-- `Inv` for one `PS.RenderPath` call: cache = interpreter state afterwards (including across
-`gsave fill grestore`), when the cached paint is opaque; the excluded class is the colour-cache defect. -/
-theorem ps_inv_step_partial (L : Lawful N) (d : Draw ν) (w : SW ν) (hw : opaquePaint w.paint)
-    (hf : opaquePaint d.fill) (hs : opaquePaint d.stroke) :
-    (psRun (sgOf N w) (psDraw N d w).2).1 = sgOf N (psDraw N d w).1 ∧ opaquePaint (psDraw N d w).1.paint := by
-  have h := psDraw_inv L d w (fun _ => PaintOK_opaque w d.fill hw)
-    (fun _ w' hw' => PaintOK_opaque w' d.stroke (by rw [hw']; split <;> assumption))
-  refine ⟨h.1, ?_⟩
-  rw [h.2]
-  split
-  · exact hs
-  · split <;> assumption
-
-/-- … lifted to every opaque program by induction. -/
-theorem ps_inv_program_partial (L : Lawful N) (ds : List (Draw ν)) (w : SW ν) (hw : opaquePaint w.paint)
-    (hd : ∀ d ∈ ds, opaquePaint d.fill ∧ opaquePaint d.stroke) :
+/-- … lifted to every program by induction. -/
+theorem ps_inv_program (L : Lawful N) (ds : List (Draw ν)) (w : SW ν) :
     (psRun (sgOf N w) (psOps N ds w)).1 = sgOf N (psFinal N ds w) := by
   induction ds generalizing w with
   | nil => simp [psOps, psFinal, psProg, psRun]
   | cons d ds ih =>
-    have h := ps_inv_step_partial L d w hw (hd d (by simp)).1 (hd d (by simp)).2
-    have h' := ih (psDraw N d w).1 h.2 (fun d' hd' => hd d' (by simp [hd']))
+    have h := ps_inv_step L d w
+    have h' := ih (psDraw N d w).1
     simp only [psOps, psFinal, psProg, List.flatten_cons, psRun_append] at *
-    rw [h.1, h']
+    rw [h, h']
 
-theorem ps_inv_from_start_partial (L : Lawful N) (ds : List (Draw ν))
-    (hd : ∀ d ∈ ds, opaquePaint d.fill ∧ opaquePaint d.stroke) :
-    (psRun (sg0 N) (psOps N ds (sw0 N))).1 = sgOf N (psFinal N ds (sw0 N)) := by
+/-- Full statement of `Inv` for PostScript from the start of the program. -/
+def ps_inv_statement (N : Num ν) : Prop :=
+  ∀ ds : List (Draw ν), (psRun (sg0 N) (psOps N ds (sw0 N))).1 = sgOf N (psFinal N ds (sw0 N))
+
+theorem ps_inv_from_start (L : Lawful N) : ps_inv_statement N := by
+  intro ds
   have e : sg0 N = sgOf N (sw0 N) := by
     simp [sg0, sgOf, sw0, Paint.nrgb, psJoinCode, (L.beq_iff _ _).2 rfl]
   rw [e]
-  exact ps_inv_program_partial L ds _ trivial hd
-
-/-- DESIGN §6 suspect: `setPaint` compares the new un-premultiplied bytes with the cached premultiplied
-bytes. {50,0,0,128} then {50,0,0,255}: no colour operator for the second fill; it is painted with
-red 99/255 where the reference says 50/255, and cache and interpreter state disagree afterwards. -/
-def psProgBad : List (Draw Nat) := [fillOnly ⟨50, 0, 0, 128⟩ 0, fillOnly ⟨50, 0, 0, 255⟩ 1]
+  exact ps_inv_program L ds _
 
 def shadeOfItem : Painted Nat → Option Shade
   | .fill _ _ s _ => some s
   | .stroke _ _ s _ _ _ _ _ _ _ => some s
   | .invalid _ => none
 
-theorem ps_colour_cache_witness :
-    (psRun (sg0 natNum) (psOps natNum psProgBad (sw0 natNum))).2.map shadeOfItem = [some (.rgb 99 0 0 255), some (.rgb 99 0 0 255)] ∧
-    (psProgBad.flatMap (psRef natNum)).map shadeOfItem = [some (.rgb 99 0 0 255), some (.rgb 50 0 0 255)] ∧
-    (psRun (sg0 natNum) (psOps natNum psProgBad (sw0 natNum))).1.col ≠ (sgOf natNum (psFinal natNum psProgBad (sw0 natNum))).col := by
-  refine ⟨by decide, by decide, by decide⟩
-
-theorem ps_inv_statement_false : ¬ ps_inv_statement natNum := by
-  intro h
-  exact ps_colour_cache_witness.2.2 (congrArg (fun g => g.col) (h psProgBad))
+/-- the former colour-cache program ({50,0,0,128} then {50,0,0,255}): the second fill gets its colour
+operator and is painted 50/255 as the reference says (regression example) -/
+example :
+    (psRun (sg0 natNum) (psOps natNum [fillOnly ⟨50, 0, 0, 128⟩ 0, fillOnly ⟨50, 0, 0, 255⟩ 1] (sw0 natNum))).2.map shadeOfItem
+      = ([fillOnly ⟨50, 0, 0, 128⟩ 0, fillOnly ⟨50, 0, 0, 255⟩ 1].flatMap (psRef natNum)).map shadeOfItem := by decide
 
 /-! ## SVG -/
 
-/-- Full statement for SVG (false: `svg_outline_evenodd_witness`). -/
+/-- Full statement for SVG. -/
 def svg_refines_statement (N : Num ν) : Prop := ∀ d : Draw ν, d.cap ≤ 2 → svgRun N (svgDraw N d) = svgRef N d
 
 /-- reading the `<path>` elements of one call with the SVG initial values (fill black, stroke none,
-width 1, butt, miter 4, no dashes) yields the reference items, for every style and view, except when
-the explicit outline carries the style's even-odd rule. No assumption on `==`. -/
-theorem svg_refines_partial (d : Draw ν) (hc : d.cap ≤ 2)
-    (hx : ¬ (d.hasStroke N d.join.svgOk = true ∧ d.native d.join.svgOk = false ∧ d.evenOdd = true)) :
-    svgRun N (svgDraw N d) = svgRef N d :=
-  svgDraw_refines d hc hx
+width 1, butt, miter 4, no dashes) yields the reference items, for every style and view (full strength
+since the repair 136f791; `cap ≤ 2` is the encoding of the three cappers). No assumption on `==`. -/
+theorem svg_refines : svg_refines_statement N := fun d hc => svgDraw_refines d hc
 
-theorem svg_program_refines_partial (ds : List (Draw ν))
-    (h : ∀ d ∈ ds, d.cap ≤ 2 ∧ ¬ (d.hasStroke N d.join.svgOk = true ∧ d.native d.join.svgOk = false ∧ d.evenOdd = true)) :
+theorem svg_program_refines (ds : List (Draw ν)) (h : ∀ d ∈ ds, d.cap ≤ 2) :
     ds.flatMap (fun d => svgRun N (svgDraw N d)) = ds.flatMap (svgRef N) := by
   induction ds with
   | nil => rfl
   | cons d ds ih =>
     simp only [List.flatMap_cons]
-    rw [svg_refines_partial d (h d (by simp)).1 (h d (by simp)).2, ih (fun d' hd' => h d' (by simp [hd']))]
+    rw [svg_refines d (h d (by simp)), ih (fun d' hd' => h d' (by simp [hd']))]
 
 def evenOddOf : Painted Nat → Option Bool
   | .fill _ eo _ _ => some eo
   | _ => none
 
-/-- stroke with a miter-clip joiner (not expressible) and the even-odd fill rule: the outline element is
-written with fill-rule evenodd; the reference fills the outline NonZero. -/
-def svgBad : Draw Nat := { strokeOnly black 0 with join := .miter 2 (some 4), evenOdd := true }
-
-theorem svg_outline_evenodd_witness :
-    (svgRun natNum (svgDraw natNum svgBad)).map evenOddOf = [some true] ∧
-    (svgRef natNum svgBad).map evenOddOf = [some false] := by
-  constructor <;> decide
-
-theorem svg_refines_statement_false : ¬ svg_refines_statement natNum := by
-  intro h
-  have := congrArg (List.map evenOddOf) (h svgBad (by decide))
-  rw [svg_outline_evenodd_witness.1, svg_outline_evenodd_witness.2] at this
-  exact absurd this (by decide)
+/-- the former even-odd outline instance (miter-clip joiner, EvenOdd): the outline is filled NonZero -/
+example : (svgRun natNum (svgDraw natNum { strokeOnly black 0 with join := .miter 2 (some 4), evenOdd := true })).map evenOddOf
+    = [some false] := by decide
 
 end C12
